@@ -167,25 +167,29 @@ func (w *Worker) twinOrder() FsetOrder {
 // statement, obtained through the same front-end as the execution it is
 // compared with, so that whatever the front-end derives per package (for
 // instance from the package's module) is part of both.
-func (w *Worker) refDiagsCLI(checker string, params map[string]any, goVersion, pkg string, file int, declSeed uint64) *RefEntry {
+func (w *Worker) refDiagsCLI(base *Workload, checker string, pkg string, file int, declSeed uint64) *RefEntry {
 	info := w.infoBy[checker]
 	if info == nil {
 		return &RefEntry{Err: "unknown checker"}
 	}
+	params, goVersion := base.Params[checker], base.GoVersion
 	key := "cli|" + checker + "|" + paramDigest(info, params) + "|" + goVersion + "|" + pkg + "|" + fmt.Sprint(file)
+	if base.SkipGenerated {
+		key += "|skipgen"
+	}
 	if declSeed != 0 {
 		key += fmt.Sprintf("|perm%d", declSeed)
 	}
 	if e, ok := w.refTable.Entries[key]; ok {
 		return e
 	}
-	e := w.computeRefCLI(info, params, goVersion, pkg, file, declSeed)
+	e := w.computeRefCLI(info, params, goVersion, base.SkipGenerated, pkg, file, declSeed)
 	w.refTable.Entries[key] = e
 	w.refTable.computed++
 	return e
 }
 
-func (w *Worker) computeRefCLI(info *linter.CheckerInfo, params map[string]any, goVersion, pkg string, file int, declSeed uint64) (e *RefEntry) {
+func (w *Worker) computeRefCLI(info *linter.CheckerInfo, params map[string]any, goVersion string, skipGen bool, pkg string, file int, declSeed uint64) (e *RefEntry) {
 	e = &RefEntry{}
 	ref := w.refCorpus()
 	cp := ref.Pkgs[pkg]
@@ -193,7 +197,7 @@ func (w *Worker) computeRefCLI(info *linter.CheckerInfo, params map[string]any, 
 		e.Err = "package not in reference corpus"
 		return
 	}
-	wl := &Workload{Checkers: []string{info.Name}, Params: map[string]map[string]any{}, Concurrency: 1, GoVersion: goVersion}
+	wl := &Workload{Checkers: []string{info.Name}, Params: map[string]map[string]any{}, Concurrency: 1, GoVersion: goVersion, SkipGenerated: skipGen}
 	if len(params) > 0 {
 		wl.Params[info.Name] = params
 	}
